@@ -15,8 +15,10 @@ BASE = os.path.join(VERIF, "coq", "base")
 AREA = os.path.join(VERIF, "coq", "writers")
 QFLAGS = "-Q ../base FlacBase -Q . FlacWriters"
 REQUIRES = ["FlacWriters.Writers", "FlacWriters.Lists_proofs", "FlacWriters.Params_proofs", "FlacWriters.Params_sweeps",
-            "FlacWriters.Writers_proofs", "FlacWriters.New_proofs", "FlacWriters.Props_C08", "FlacWriters.Props_C15",
-            "FlacWriters.Props_C09", "FlacWriters.Pins"]
+            "FlacWriters.Writers_proofs", "FlacWriters.New_proofs", "FlacWriters.Finalize_proofs", "FlacWriters.Encoder_proofs",
+            "FlacWriters.Seek_proofs", "FlacWriters.Finish_proofs", "FlacWriters.Newok_proofs", "FlacWriters.C09_proofs", "FlacWriters.Run_proofs", "FlacWriters.Frontend_proofs", "FlacWriters.Bytes_proofs",
+            "FlacWriters.Safety_proofs", "FlacWriters.Audio_proofs",
+            "FlacWriters.Props_C08", "FlacWriters.Props_C15", "FlacWriters.Props_C09", "FlacWriters.Pins"]
 
 ASSUMPTIONS = [
     "the block encoder is abstract: `enc_block : frame number -> channels -> res bytes` is a Section variable (theorems hold for every such function; that the real encoder is a function of its block — scratch caches are overwritten before use — is exercised by byte-comparing files across repeated and differently chunked runs); MD5 is a Section function",
